@@ -104,6 +104,41 @@ Proof.
   cbn [app is_prefix]. reflexivity.
 Qed.
 
+Lemma ent_amp : vtt_entity (lit "&amp") = Some [38]. Proof. vm_compute. reflexivity. Qed.
+Lemma ent_lt : vtt_entity (lit "&lt") = Some [60]. Proof. vm_compute. reflexivity. Qed.
+Lemma ent_gt : vtt_entity (lit "&gt") = Some [62]. Proof. vm_compute. reflexivity. Qed.
+
+(* the three references the writer emits, read by the tokenizer from the data state *)
+Lemma display_amp : forall R out, vtt_display_aux VData (lit "&amp;" ++ R) out = vtt_display_aux VData R (38 :: out).
+Proof.
+  intros R out. change (lit "&amp;" ++ R) with (38 :: 97 :: 109 :: 112 :: 59 :: R).
+  cbn [vtt_display_aux]. change (38 =? 38) with true. cbv iota.
+  change (97 =? 59) with false. change (109 =? 59) with false. change (112 =? 59) with false. cbv iota.
+  change (is_alnum 97) with true. change (is_alnum 109) with true. change (is_alnum 112) with true. cbn [orb]. cbv iota.
+  change (59 =? 59) with true. cbv iota. change (rev [112; 109; 97; 38]) with (lit "&amp"). rewrite ent_amp. reflexivity.
+Qed.
+Lemma display_lt : forall R out, vtt_display_aux VData (lit "&lt;" ++ R) out = vtt_display_aux VData R (60 :: out).
+Proof.
+  intros R out. change (lit "&lt;" ++ R) with (38 :: 108 :: 116 :: 59 :: R).
+  cbn [vtt_display_aux]. change (38 =? 38) with true. cbv iota.
+  change (108 =? 59) with false. change (116 =? 59) with false. cbv iota.
+  change (is_alnum 108) with true. change (is_alnum 116) with true. cbn [orb]. cbv iota.
+  change (59 =? 59) with true. cbv iota. change (rev [116; 108; 38]) with (lit "&lt"). rewrite ent_lt. reflexivity.
+Qed.
+Lemma display_gt : forall R out, vtt_display_aux VData (lit "&gt;" ++ R) out = vtt_display_aux VData R (62 :: out).
+Proof.
+  intros R out. change (lit "&gt;" ++ R) with (38 :: 103 :: 116 :: 59 :: R).
+  cbn [vtt_display_aux]. change (38 =? 38) with true. cbv iota.
+  change (103 =? 59) with false. change (116 =? 59) with false. cbv iota.
+  change (is_alnum 103) with true. change (is_alnum 116) with true. cbn [orb]. cbv iota.
+  change (59 =? 59) with true. cbv iota. change (rev [116; 103; 38]) with (lit "&gt"). rewrite ent_gt. reflexivity.
+Qed.
+Lemma display_char : forall c R out, c <> 38 -> c <> 60 ->
+  vtt_display_aux VData (c :: R) out = vtt_display_aux VData R (c :: out).
+Proof.
+  intros c R out H1 H2. cbn [vtt_display_aux]. destruct (Z.eqb_spec c 38); [congruence|]. destruct (Z.eqb_spec c 60); [congruence|]. reflexivity.
+Qed.
+
 Lemma display_roundtrip_n : forall n s, (length s <= n)%nat -> forall out,
   vtt_display_aux VData (rep (vesc s)) out = rev out ++ s.
 Proof.
@@ -113,25 +148,27 @@ Proof.
     { cbn. rewrite app_nil_r. reflexivity. }
     cbn [length] in Hn. unfold vesc. cbn [flat_map]. fold (vesc t). unfold vesc1.
     destruct (Z.eqb_spec c 38) as [->|H38].
-    { cbn [lit app]. cbn -[rep vesc].
+    { change (lit "&amp;" ++ vesc t) with (38 :: 97 :: 109 :: 112 :: 59 :: vesc t).
       rewrite !rep_other by discriminate.
-      cbn -[rep vesc]. rewrite IH by lia. cbn [rev]. rewrite <- app_assoc. reflexivity. }
+      change (38 :: 97 :: 109 :: 112 :: 59 :: rep (vesc t)) with (lit "&amp;" ++ rep (vesc t)).
+      rewrite display_amp, IH by lia. cbn [rev]. rewrite <- app_assoc. reflexivity. }
     destruct (Z.eqb_spec c 60) as [->|H60].
-    { cbn [lit app]. cbn -[rep vesc].
+    { change (lit "&lt;" ++ vesc t) with (38 :: 108 :: 116 :: 59 :: vesc t).
       rewrite !rep_other by discriminate.
-      cbn -[rep vesc]. rewrite IH by lia. cbn [rev]. rewrite <- app_assoc. reflexivity. }
+      change (38 :: 108 :: 116 :: 59 :: rep (vesc t)) with (lit "&lt;" ++ rep (vesc t)).
+      rewrite display_lt, IH by lia. cbn [rev]. rewrite <- app_assoc. reflexivity. }
     cbn [app].
     destruct (Z.eqb_spec c 45) as [->|H45].
     + destruct (is_prefix [45; 62] t) eqn:E.
       * destruct (prefix2_inv _ _ _ E) as [t' ->].
         unfold vesc. cbn [flat_map]. fold (vesc t'). change (vesc1 45) with [45]. change (vesc1 62) with [62].
-        cbn [app]. rewrite rep_arrow. unfold arrow_esc. cbn [lit app]. cbn -[rep vesc].
+        cbn [app]. rewrite rep_arrow. change (arrow_esc ++ rep (vesc t')) with (45 :: 45 :: lit "&gt;" ++ rep (vesc t')).
+        rewrite !display_char by discriminate. rewrite display_gt.
         rewrite IH by (cbn [length] in Hn; lia). cbn [rev]. rewrite <- !app_assoc. reflexivity.
       * rewrite rep_dash by (rewrite vesc_prefix2; exact E).
-        cbn -[rep vesc]. rewrite IH by lia. cbn [rev]. rewrite <- app_assoc. reflexivity.
+        rewrite display_char by discriminate. rewrite IH by lia. cbn [rev]. rewrite <- app_assoc. reflexivity.
     + rewrite rep_other by exact H45.
-      cbn [vtt_display_aux]. destruct (Z.eqb_spec c 38); [congruence|]. destruct (Z.eqb_spec c 60); [congruence|].
-      rewrite IH by lia. cbn [rev]. rewrite <- app_assoc. reflexivity.
+      rewrite display_char by assumption. rewrite IH by lia. cbn [rev]. rewrite <- app_assoc. reflexivity.
 Qed.
 
 Theorem vtt_encode_roundtrip : forall s, vtt_display (vtt_encode s) = s.
